@@ -114,7 +114,16 @@ CHECKS['C17'] = dict(
     note='Trusted: sort checker ddv/typed.py and evaluator ddv/evalsmt.py (self-tested); quantifiers range over finite domains (the identities checked hold over any fixed domain); integer division by zero is skipped as undefined.',
     design='3/C17')
 
+CHECKS['C06'] = dict(
+    level='fault_enumeration', engine='FAULT',
+    technique='enumeration of every low-level file-operation point of every rewrite as observation point and as interrupt point, on the real write path; interrupts at command executions over schedule deviations; real SIGINT runs',
+    text='21 scenarios (3 strategies x 3 output formats, 3-10 rewrites each) run the real main() with nodeio\'s open/os rebound to a proxy that numbers every operation on the output file (open, each write, close, replace). At each of the 5.2 k operation points the content on disk is read through a separate descriptor (what a concurrent reader or a kill -9 finds) and must tokenise to a complete accepted input from the first completed rewrite on; and one execution per point raises KeyboardInterrupt exactly there and leaves it to ddSMT\'s handlers: afterwards the file must hold the last accepted input (or the one being installed), main() returned 1, the input file is unchanged, the temporary directory and any sibling temp file are gone. Interrupts are also injected at every command execution on the default schedule and, with -j 2 and one schedule deviation, at every execution that is still running after an acceptance (number of acceptances by the main loop must equal the number of completed rewrites). REAL: 20 runs of bin/ddsmt with SIGINT to the process group at the 2nd..16th invocation.',
+    note='Trusted: operation-point granularity is the python-level file operation, not machine instructions inside one write(2); the file proxy forwards to the real file object. "Last accepted" is read leniently for an interrupt inside the rewrite that installs it. ' + SCHED_NOTE,
+    design='3/C06')
+
 ENGINES = [
+    dict(name='FAULT', path='ddv/checks/c06.py', serves_properties=['C06', 'C10'],
+         kind_free_text='file-operation proxy, interrupt injection, virtual subprocess / clock (C10), on top of the SCHED launcher'),
     dict(name='GRAPH', path='ddv/graph.py', serves_properties=['C03', 'C04', 'C15'],
          kind_free_text='explicit-state breadth-first search of the rewrite graph (real mutators as transition relation), SCC detection, per-call work meter'),
     dict(name='SCHED', path='ddv/sched.py', serves_properties=['C01', 'C02', 'C05', 'C13', 'C18'],
